@@ -41,4 +41,5 @@ def oracle(ctx, budget=1, replay=None, hints=None):
         f = PO.run_history(h, ('C15',))
         if f:
             fails.append(f[0])
+    dist['position_checks'] = PO.COUNTS.get('C15:position', 0)
     return dict(evaluations=n, failures=fails, samples=[[list(map(str, e)) for e in h['events'][:10]]], distribution=dist)
